@@ -70,6 +70,8 @@ ApplyFn(f, v) ==
   CASE f \in {"none", "same"} -> Ok(v)
     [] f = "inc"   -> IF IsIntLike(v) THEN Ok(PInt((IntVal(v) + 1) % 3)) ELSE Err(v, {"TypeError"})
     [] f = "pclip" -> IF IsIntLike(v) THEN Ok(PInt(IF IntVal(v) > 1 THEN 1 ELSE IntVal(v))) ELSE Ok(v)   \* total, idempotent preparer
+    \* item preparer that rewrites large items and refuses 0 (a later item can fail after earlier ones were rewritten)
+    [] f = "pclip0" -> IF IsIntLike(v) THEN (IF IntVal(v) = 0 THEN Err(v, {"ZeroDivisionError"}) ELSE Ok(PInt(IF IntVal(v) > 1 THEN 1 ELSE IntVal(v)))) ELSE Ok(v)
     [] f = "tostr" -> Ok(PStr("s"))
     \* callbacks that hand back a PRE-EXISTING object which is neither their input nor new (a registry entry): the library must not modify it
     [] f = "shared"  -> Ok(SharedChild)
@@ -246,7 +248,14 @@ TransformMany(CT, w, kwf, i) ==           \* attribute transforms on a nested sp
 
 TransformA(CT, o, a, f, kwf) ==
   LET T == ASpec(CT, o.c, a).ty old == o.a[a] IN
-  IF IsMissing(old) THEN Err(o, {"unspecified"})
+  \* nothing there yet: with attribute transforms alone the nested value is built with its defaults and the transforms applied to that
+  \* (a function of the missing value itself, or a preparer in between, is left open)
+  IF IsMissing(old) THEN
+       (IF IsSpecTy(CT, T) /\ f = "none" /\ kwf # <<>> /\ ASpec(CT, o.c, a).prep = "none" /\ KwNames(kwf) \subseteq AttrSet(CT, T.c)
+        THEN LET b == Construct(CT, T.c, <<>>) IN
+             IF ~IsOk(b) THEN Err(o, b.res)
+             ELSE LET r2 == TransformMany(CT, b.val, kwf, 1) IN IF ~IsOk(r2) THEN Err(o, r2.res) ELSE With(CT, o, a, r2.val, <<>>)
+        ELSE Err(o, {"unspecified"}))
   ELSE IF kwf # <<>> /\ ~(IsSpecTy(CT, T) /\ KwNames(kwf) \subseteq AttrSet(CT, T.c)) THEN Err(o, {"TypeError"})
   ELSE LET r1 == ApplyFn(f, old) IN
        IF ~IsOk(r1) THEN Err(o, r1.res)
@@ -376,8 +385,35 @@ ElemOp(CT, c, a, coll0, act) ==
        [] act.op = "without_item" ->
             IF IsMissing(coll0) THEN Err(coll0, {"ok", "KeyError"})
             ELSE IF ~DictHas(d, act.key) THEN Err(PMissing, {"KeyError"}) ELSE Ok([coll EXCEPT !.e = DictDel(d, act.key)])
-  ELSE  \* plain set (KeyedSet attributes are judged by the invariant clauses only)
-     IF T.k = "kset" THEN Err(PMissing, {"unspecified"}) ELSE
+  ELSE IF T.k = "kset" THEN
+     \* KeyedSet attribute: a set of keyed items addressed by key or by item (by its key); storing an item replaces the one holding its key
+     LET s == coll.e
+         keyOf(v) == IF v.t = "obj" /\ v.c \in DOMAIN CT /\ KeyOf(CT, v.c) # "" THEN KeyVal(CT, v) ELSE v
+         has(k)   == \E j \in 1..Len(s) : PyEq(KeyVal(CT, s[j]), k)
+         at(k)    == s[CHOOSE j \in 1..Len(s) : PyEq(KeyVal(CT, s[j]), k)]
+         drop(k)  == SelectSeq(s, LAMBDA y : ~PyEq(KeyVal(CT, y), k))
+         put(xs, x) == IF \E j \in 1..Len(xs) : PyEq(KeyVal(CT, xs[j]), KeyVal(CT, x))
+                       THEN [j \in 1..Len(xs) |-> IF PyEq(KeyVal(CT, xs[j]), KeyVal(CT, x)) THEN x ELSE xs[j]] ELSE Append(xs, x)
+         hashable(v) == v.t \notin {"list", "dict", "set", "klist", "kset"}
+     IN
+     CASE act.op = "with_item" ->
+            LET it == CheckItem(CT, c, a, ItemValue(CT, c, a, PMissing, act.item, act.kw, TRUE)) IN
+            IF ~IsOk(it) THEN it ELSE Ok([coll EXCEPT !.e = put(s, it.val)])
+       [] act.op = "update_item" ->
+            IF ~hashable(act.voi) \/ ~has(keyOf(act.voi)) THEN Err(PMissing, {"ValueError", "KeyError", "TypeError"})
+            ELSE LET it == CheckItem(CT, c, a, ItemValue(CT, c, a, at(keyOf(act.voi)), act.item, act.kw, FALSE)) IN
+                 IF ~IsOk(it) THEN it ELSE Ok([coll EXCEPT !.e = put(drop(keyOf(act.voi)), it.val)])
+       [] act.op = "transform_item" ->
+            IF ~hashable(act.voi) \/ ~has(keyOf(act.voi)) THEN Err(PMissing, {"ValueError", "KeyError", "TypeError"})
+            ELSE LET f == ApplyFn(act.f, at(keyOf(act.voi)))
+                     g == IF ~IsOk(f) THEN f ELSE IF act.kwf = <<>> THEN f ELSE IF f.val.t = "obj" THEN TransformMany(CT, f.val, act.kwf, 1) ELSE Err(PMissing, {"unspecified"})
+                     it == CheckItem(CT, c, a, g) IN
+                 IF ~IsOk(it) THEN it ELSE Ok([coll EXCEPT !.e = put(drop(keyOf(act.voi)), it.val)])
+       [] act.op = "without_item" ->
+            IF IsMissing(coll0) THEN Err(coll0, {"ok", "ValueError", "KeyError"})
+            ELSE IF ~hashable(act.voi) \/ ~has(keyOf(act.voi)) THEN Err(PMissing, {"ValueError", "KeyError", "TypeError"})
+            ELSE Ok([coll EXCEPT !.e = drop(keyOf(act.voi))])
+  ELSE  \* plain set
      LET s == coll.e IN
      CASE act.op = "with_item" ->
             LET it == CheckItem(CT, c, a, ItemValue(CT, c, a, PMissing, act.item, act.kw, TRUE)) IN
@@ -461,6 +497,16 @@ Apply(CT, o, act) ==
          [] act.op = "delattr"   -> IF IsMissing(o.a[act.attr]) /\ IsMissing(DefaultOf(CT, o.c, act.attr)) THEN [val |-> o, res |-> {"AttributeError"}, same |-> TRUE]
                                     ELSE out(ResetA(CT, o, act.attr), TRUE)
          [] act.op \in {"with_item", "update_item", "transform_item", "without_item"} -> out(ElemHelper(CT, o, act), inpl)
+         \* update(<replacement instance>, **kw): the result is (a copy of) the replacement with the keywords applied; neither the receiver
+         \* nor the object handed in changes (the in-place form is not documented)
+         \* Cls(**kw) called while the receiver exists: builds a new instance, touches neither the receiver nor the argument objects (C01, C04, C08)
+         \* (what a user-written __post_init__ does to the fresh instance is not part of the class table: left open)
+         [] act.op = "construct" -> IF "post" \in DOMAIN CT[o.c] /\ CT[o.c].post THEN [val |-> o, res |-> {"unspecified"}, same |-> TRUE] ELSE
+                                    LET r == Construct(CT, o.c, act.kw) IN [val |-> IF IsOk(r) THEN r.val ELSE o, res |-> r.res, same |-> ~IsOk(r)]
+         [] act.op = "update_repl" -> IF inpl THEN [val |-> o, res |-> {"unspecified"}, same |-> TRUE]
+                                      ELSE IF act.kw = <<>> THEN [val |-> [act.v EXCEPT !.x = BlankX(CT, o.c), !.ov = BlankOv(CT, o.c)], res |-> {"ok"}, same |-> FALSE]
+                                      ELSE LET r == UpdateTop(CT, [act.v EXCEPT !.x = BlankX(CT, o.c), !.ov = BlankOv(CT, o.c)], act.kw) IN
+                                           [val |-> IF IsOk(r) THEN r.val ELSE o, res |-> r.res, same |-> ~IsOk(r)]
          [] act.op = "update_top" -> IF act.kw = <<>> THEN noop
                                      ELSE out(UpdateTop(CT, o, act.kw), inpl)
          [] act.op = "transform_top" -> IF act.kwf = <<>> THEN noop
@@ -481,11 +527,11 @@ StepF(CT, o, act) ==
       inpl == IsInplaceForm(act) \/ CT[o.c].dnc          \* (a do_not_copy=True class works in place: on a frozen one that is rejected like any in-place call)
   IN
   \* a keyword outside the advertised signature is rejected by the generated wrapper before anything else (C17)
-  IF act.op = "update_top" /\ ~(KwNames(act.kw) \subseteq AttrSet(CT, o.c)) THEN [val |-> o, res |-> {"TypeError"}, same |-> TRUE]
+  IF act.op \in {"update_top", "update_repl"} /\ ~(KwNames(act.kw) \subseteq AttrSet(CT, o.c)) THEN [val |-> o, res |-> {"TypeError"}, same |-> TRUE]
   ELSE IF act.op = "transform_top" /\ ~(KwNames(act.kwf) \subseteq AttrSet(CT, o.c)) THEN [val |-> o, res |-> {"TypeError"}, same |-> TRUE]
   ELSE IF "iff" \in DOMAIN act /\ ~act.iff THEN noop
   \* (reading a cached property of a frozen instance fills its cache: not an observable change, and not rejected)
-  ELSE IF inpl /\ act.op # "read" /\ Frozen(CT, o) /\ ~IsNoopForm(act) THEN
+  ELSE IF inpl /\ act.op \notin {"read", "construct", "update_repl"} /\ Frozen(CT, o) /\ ~IsNoopForm(act) THEN
        \* rejected; when the call would fail anyway for another reason that report is acceptable too
        [val |-> o, res |-> IF "unspecified" \in Apply(CT, o, act).res THEN {"unspecified"}
                            ELSE {"FrozenInstanceError"} \cup (Apply(CT, o, act).res \ {"ok"}), same |-> TRUE]
